@@ -2,6 +2,7 @@ import Spydr.Common.Proto
 import Spydr.IR.Model
 import Spydr.IR.NamesModel
 import Spydr.IR.Events
+import Spydr.IR.Clone
 open Lean Spydr.Proto Spydr.IR
 
 def getOptInt (j : Json) (k : String) : Except String (Option Int) :=
@@ -215,6 +216,9 @@ def handle (st : DState) (j : Json) : Except String (DState × Json) := do
   let cmd ← getStr j "cmd"
   match cmd with
   | "reset" => pure ({ st with s := S.init, d := D.init }, Json.mkObj [("ok", Json.bool true)])
+  | "double" =>
+    let off ← getNat j "off"
+    pure ({ st with s := s.double off }, Json.mkObj [("ok", Json.bool true)])
   | "dop" =>
     let op ← dopOf (← j.getObjVal? "op")
     let (d', ok) := dstep st.d op
